@@ -26,6 +26,18 @@ CHECKS = {
     ),
 }
 
+CHECKS["C18"] = dict(
+    text="Unbounded Lean theorems on the codec model: duration encode/decode round trip for every whole-second duration of either sign and its "
+    "xsd:duration shape; boolean; every 24-bit colour and (by decide over the table regenerated from const.py at every run) every CSS name; date and "
+    "datetime round trips for years 1..9999, every microsecond, every +-HH:MM offset including the '+00:00' -> 'Z' rewriting. Correspondence: "
+    "datatype.py / color.py vs the model on boundary lattices, random interiors and a malformed near-miss stream; oracle with independent xsd regexes.",
+    note="date.isoformat / datetime.fromisoformat are CPython: modelled for the forms isoformat produces (parameters, validated by the correspondence). "
+    "Duration.encode divides in floating point: the model divides exactly; equality is checked on the lattice (|d| < 2^53 us), not proved. "
+    "Unit (lengths) is not modelled. Known finding C18-F2 (Date.decode returns a datetime) is reported, not suppressed silently.",
+    technique="Lean 4 theorems (parser/printer round trips by list-scanning lemmas, omega, decide +kernel over a generated table) + differential correspondence",
+    design="5/C18",
+)
+
 NOT_YET = {}
 
 
@@ -54,7 +66,7 @@ def main():
         )
     m = {
         "version": 1,
-        "setup_cmd": "cd /verif/lean && lake build OdfModel OdfProofs OdfProps",
+        "setup_cmd": "cd /verif && /venv/bin/python harness/translate.py && cd lean && lake build OdfModel OdfProofs OdfProps",
         "hooks": {
             "guard": "JDUM_ODFDO_VERIF",
             "enable": "no hook is needed: the checks use the public API of the working tree in /repo/src (editable install) and lxml; the variable is set by the harness but read by no source line",
